@@ -175,6 +175,7 @@ func checkC15(ctx *Ctx) {
 			}
 		}
 	}
+	defpathDeterminism(ctx, w)
 	// modifiers, placeholder regex, port discovery, SetOut, default path
 	for i := 0; i < n && ctx.TimeLeft(); i++ {
 		p := pathPool[r.Intn(len(pathPool))]
@@ -214,6 +215,24 @@ func checkC15(ctx *Ctx) {
 		ctx.diff(w, "c15.setout", true, "setout", pat, kvField(ins), kvField(params), kvField(tags))
 		ctx.diff(w, "c15.defpath", true, "defpath", []string{"proc", "My Proc", "p.q-r"}[r.Intn(3)], "out", []string{"", "txt", "tar.gz"}[r.Intn(3)], kvField(ins), kvField(params), kvField(tags))
 	}
+}
+
+// the default output name is a *function* of its arguments: evaluated repeatedly with several tags and
+// parameters it must always be the same string (map iteration order must not leak into it)
+func defpathDeterminism(ctx *Ctx, w *Worker) {
+	tags := map[string]string{"t1": "a", "t2": "b", "t3": "c", "zz": "d", "aa": "e"}
+	params := map[string]string{"p1": "1", "p2": "2", "p3": "3", "k": "v"}
+	ins := map[string]string{"in1": "x/a.txt", "in2": "b.txt", "in3": "c/d/e.txt"}
+	req := []string{"defpath", "proc", "out", "txt", kvField(ins), kvField(params), kvField(tags)}
+	first := w.Ask(req...)
+	ctx.Res.Eval("defpath-determinism", true, req)
+	for i := 0; i < 40; i++ {
+		if again := w.Ask(req...); again != first {
+			ctx.Res.Violate(Violation{What: fmt.Sprintf("the default output name of the same task is %q in one evaluation and %q in another", first, again), Class: "c15.defpath-nondeterministic", Witness: req})
+			break
+		}
+	}
+	ctx.diff(w, "c15.defpath", true, req...)
 }
 
 func modSuffix(r *Rng) string {
